@@ -73,7 +73,12 @@ Formats == {"cirq", "sympy", "ionq", "projectq", "qdk", "cirq:depol", "cirq:paul
 SimForms == {"", "depol", "pauli", "initsv", "desired", "savemid"}
 IndexOps == {"reindex", "trim"}
 PrefixNone   == <<>>
-PrefixIndex2 == <<IndexOps, IndexOps>>           \* two successive in-place index rewritings, then any offered operation
+PrefixIndex2 == <<IndexOps, IndexOps>>
+\* freshness scenario: an out-of-place operation (all optional arguments), then a mutation of any object: by the frame
+\* condition the operands of the first step must not change when its RESULT is mutated
+OutOfPlaceOps == {"concat", "repeat", "copy", "inverse", "stack", "stack0", "stack1", "small", "redundant", "merge", "simplify", "split"}
+MutatorOps    == {"add", "trim", "setparam", "reindex"}
+PrefixFresh   == <<OutOfPlaceOps, MutatorOps>>           \* two successive in-place index rewritings, then any offered operation
 
 \* uniform action record
 Act(op, o, o2, dst, g, gs, n, form, rq, fmt, new, bad) ==
@@ -89,6 +94,11 @@ Simplifiable(gs) == ~Symbolic(gs) /\ Invertible(gs)
 To6(gs) == TLCEval([j \in 1..Len(gs) |-> G6(gs[j].name, gs[j].t, gs[j].c, gs[j].k, gs[j].v, "")])
 Inv6(gs) == To6(InvCirc(gs))
 
+HasNumParam(gs) == \E j \in 1..Len(gs) : gs[j].name \in ParamNames /\ gs[j].s = ""
+FirstNumParam(gs) == SetMin({j \in 1..Len(gs) : gs[j].name \in ParamNames /\ gs[j].s = ""})
+\* in-place change of a gate parameter through iteration (documented as allowed): angle index + 2
+BumpFirstParam(gs) == [gs EXCEPT ![FirstNumParam(gs)] = [@ EXCEPT !.k = @ + 2]]
+
 \* result object of an out-of-place / in-place rewriting operation, or Dead when the model predicts an exception
 Result(act, a, b) ==
   CASE act.op = "concat"  -> LET n == IF a.fixedN > 0 \/ b.fixedN > 0 THEN (IF W(a) >= W(b) THEN W(a) ELSE W(b)) ELSE 0
@@ -99,24 +109,28 @@ Result(act, a, b) ==
     [] act.op = "inverse" -> IF Invertible(a.gates) /\ ~Symbolic(a.gates) /\ Fits(a.gates, a.fixedN) THEN Mk(Inv6(a.gates), a.fixedN) ELSE Dead
     [] act.op = "trim"    -> [a EXCEPT !.gates = Compress(a.gates, Used(a.gates)), !.qidx = 0..(Cardinality(Used(a.gates)) - 1),
                                        !.fixedN = IF a.fixedN > 0 THEN Cardinality(Used(a.gates)) ELSE 0]
-    [] act.op = "reindex" -> IF Len(act.new) = Cardinality(a.qidx)
+    [] act.op = "reindex" -> IF Len(act.new) = Cardinality(a.qidx) /\ ValidNew(act.new)
                              THEN [a EXCEPT !.gates = ReindexGates(a.gates, a.qidx, act.new), !.qidx = {act.new[x] : x \in 1..Len(act.new)},
                                             !.fixedN = IF a.fixedN > 0 THEN SetMax({act.new[x] : x \in 1..Len(act.new)}) + 1 ELSE 0]
                              ELSE Dead
+    [] act.op = "stack0"  -> Mk(<<>>, 0)
+    [] act.op = "stack1"  -> Mk(Compress(a.gates, Used(a.gates)), IF a.fixedN > 0 THEN Cardinality(Used(a.gates)) ELSE 0)
+    [] act.op = "setparam" -> IF HasNumParam(a.gates) THEN [a EXCEPT !.gates = BumpFirstParam(a.gates)] ELSE Dead
     [] act.op = "stack"   -> LET gs == StackModel(<<a.gates, b.gates>>)
                                  n  == IF a.fixedN > 0 \/ b.fixedN > 0 THEN MaxIdx(gs) + 1 ELSE 0
                              IN Mk(gs, n)
-    [] act.op = "small"   -> IF ~Symbolic(a.gates) THEN Mk(To6(DropAlgo(a.gates, 0, FALSE)), IF act.rq THEN 0 ELSE W(a)) ELSE Dead
+    [] act.op = "small"   -> IF ~Symbolic(a.gates) THEN Mk(To6(DropAlgo(a.gates, IF act.bad = "thr2" THEN 2 ELSE 0, FALSE)), IF act.rq THEN 0 ELSE W(a)) ELSE Dead
     [] act.op = "redundant" -> IF Simplifiable(a.gates) THEN Mk(To6(CancelAlgo(a.gates, FALSE)), IF act.rq THEN 0 ELSE W(a)) ELSE Dead
     [] act.op = "merge"   -> IF ~Symbolic(a.gates) THEN Mk(To6(MergeAlgo(a.gates)), 0) ELSE Dead
-    [] act.op = "simplify" -> IF Simplifiable(a.gates) THEN Mk(To6(SimplifyAlgo(a.gates, 0, FALSE)), 0) ELSE Dead
+    [] act.op = "simplify" -> IF act.bad = "mc0" THEN (IF Fits(a.gates, a.fixedN) THEN Mk(a.gates, a.fixedN) ELSE Dead)
+                              ELSE IF Simplifiable(a.gates) THEN Mk(To6(SimplifyAlgo(a.gates, IF act.bad = "thr2" THEN 2 ELSE 0, FALSE)), 0) ELSE Dead
     [] OTHER -> Dead
 
-InPlace(act) == act.op \in {"trim", "reindex"} \/ (act.op \in {"small", "redundant", "merge", "simplify"} /\ act.form = "method")
+InPlace(act) == act.op \in {"trim", "reindex", "setparam"} \/ (act.op \in {"small", "redundant", "merge", "simplify"} /\ act.form = "method")
 Writes(act)  == IF act.op \in {"new"} THEN {act.dst}
                 ELSE IF act.op = "add" THEN {act.o}
                 ELSE IF InPlace(act) THEN {act.o}
-                ELSE IF act.op \in {"concat", "repeat", "copy", "inverse", "stack", "small", "redundant", "merge", "simplify"} THEN {act.dst}
+                ELSE IF act.op \in {"concat", "repeat", "copy", "inverse", "stack", "stack0", "stack1", "small", "redundant", "merge", "simplify"} THEN {act.dst}
                 ELSE {}
 
 Effect(hp, act) ==
@@ -125,6 +139,7 @@ Effect(hp, act) ==
   IN CASE act.op = "new" -> IF Fits(act.gs, act.n) THEN [hp EXCEPT ![act.dst] = Mk(act.gs, act.n)] ELSE hp
        [] act.op = "add" -> IF a.fixedN > 0 /\ MaxIdx(<<act.g>>) >= a.fixedN THEN hp
                             ELSE [hp EXCEPT ![act.o] = [a EXCEPT !.gates = Append(@, act.g), !.qidx = @ \cup QSet(act.g)]]
+       [] act.op = "stack0" -> [hp EXCEPT ![act.dst] = Mk(<<>>, 0)]
        [] Writes(act) # {} -> LET r == Result(act, a, b) IN
                               IF r.live THEN [hp EXCEPT ![CHOOSE s \in Writes(act) : TRUE] = r] ELSE hp
        [] OTHER -> hp        \* read-only and always-rejected actions
@@ -135,6 +150,7 @@ Perm(S) == LET n == Cardinality(S) IN
            \* rev and compact LOWER the maximal index after shift / spread raised it
            {<<"rev", [x \in 1..n |-> n - x]>>, <<"shift", [x \in 1..n |-> x + 1]>>, <<"compact", [x \in 1..n |-> x - 1]>>} \cup
            (IF Rich THEN {<<"spread", [x \in 1..n |-> 2 * (n - x)]>>} ELSE {})
+FnOptions(op) == IF op = "simplify" THEN {"", "mc0", "mc1", "thr2"} ELSE IF op = "small" THEN {"", "thr2", "thr0"} ELSE {""}
 Acts(hp) ==
   UNION { (IF "add" \in Ops THEN { Act("add", o, 0, 0, g, <<>>, 0, "", FALSE, "", <<>>, "") : g \in GateAlpha } ELSE {})
      \* boundary of the fixed width: index n-1 must be accepted, index n rejected
@@ -144,25 +160,36 @@ Acts(hp) ==
      \cup (IF "addbad" \in Ops THEN { Act("addbad", o, 0, 0, NoGate, <<>>, 0, "", FALSE, "", <<>>, bk) :
                                        bk \in (IF Rich THEN BadKinds ELSE {"negative-target", "duplicate", "too-many-targets", "float-index", "controlled-too-many-targets"}) } ELSE {})
      \cup (IF "concat" \in Ops THEN { Act("concat", o, o2, d, NoGate, <<>>, 0, "", FALSE, "", <<>>, "") : o2 \in Live(hp), d \in Slots } ELSE {})
-     \cup (IF "repeat" \in Ops THEN { Act("repeat", o, 0, d, NoGate, <<>>, k, "", FALSE, "", <<>>, "") : k \in {0, 2}, d \in Slots } ELSE {})
+     \cup (IF "repeat" \in Ops THEN { Act("repeat", o, 0, d, NoGate, <<>>, k, "", FALSE, "", <<>>, "") : k \in {0, 1, 2}, d \in Slots } ELSE {})
      \cup (IF "copy" \in Ops THEN { Act("copy", o, 0, d, NoGate, <<>>, 0, "", FALSE, "", <<>>, "") : d \in Slots \ {o} } ELSE {})
      \cup (IF "inverse" \in Ops THEN { Act("inverse", o, 0, d, NoGate, <<>>, 0, "", FALSE, "", <<>>, "") : d \in Slots } ELSE {})
      \cup (IF "trim" \in Ops THEN { A0("trim", o) } ELSE {})
      \cup (IF "reindex" \in Ops /\ hp[o].qidx # {}
            THEN { Act("reindex", o, 0, 0, NoGate, <<>>, 0, "", FALSE, "", p[2], "") : p \in Perm(hp[o].qidx) }
                 \cup { Act("reindex", o, 0, 0, NoGate, <<>>, 0, "", FALSE, "", <<0>> \o [x \in 1..Cardinality(hp[o].qidx) |-> x], "") }
+                \* right length but not a valid set of qubit indices (repeated / negative): must be rejected
+                \cup (IF Cardinality(hp[o].qidx) >= 2
+                      THEN { Act("reindex", o, 0, 0, NoGate, <<>>, 0, "", FALSE, "", [x \in 1..Cardinality(hp[o].qidx) |-> IF x <= 2 THEN 1 ELSE x], "invalid-new-indices") }
+                      ELSE {})
+                \cup { Act("reindex", o, 0, 0, NoGate, <<>>, 0, "", FALSE, "", [x \in 1..Cardinality(hp[o].qidx) |-> x - 2], "invalid-new-indices") }
            ELSE {})
      \cup (IF "split" \in Ops THEN { Act("split", o, 0, 0, NoGate, <<>>, 0, "", tr, "", <<>>, "") : tr \in BOOLEAN } ELSE {})
      \cup (IF "stack" \in Ops THEN { Act("stack", o, o2, d, NoGate, <<>>, 0, "", FALSE, "", <<>>, "") : o2 \in Live(hp), d \in Slots } ELSE {})
+     \* function forms with every documented optional argument (option tag in the field `bad`: mc0 / mc1 = max_cycles 0 / 1,
+     \* thr2 / thr0 = param_threshold 2.0 / 1e-9), method forms with the defaults
      \cup UNION { IF op \in Ops
-                  THEN { Act(op, o, 0, d, NoGate, <<>>, 0, "fn", rq, "", <<>>, "") : d \in Slots, rq \in (IF op = "merge" THEN {FALSE} ELSE BOOLEAN) }
+                  THEN { Act(op, o, 0, d, NoGate, <<>>, 0, "fn", rq, "", <<>>, opt) : d \in Slots, rq \in (IF op = "merge" THEN {FALSE} ELSE BOOLEAN),
+                                                                                   opt \in FnOptions(op) }
                        \cup { Act(op, o, 0, 0, NoGate, <<>>, 0, "method", rq, "", <<>>, "") : rq \in (IF op = "merge" THEN {FALSE} ELSE BOOLEAN) }
                   ELSE {} : op \in {"small", "redundant", "merge", "simplify"} }
+     \cup (IF "stack" \in Ops THEN { Act("stack1", o, 0, d, NoGate, <<>>, 0, f, FALSE, "", <<>>, "") : d \in Slots, f \in {"fn", "method"} } ELSE {})
+     \cup (IF "setparam" \in Ops /\ HasNumParam(hp[o].gates) THEN { A0("setparam", o) } ELSE {})
      \cup (IF "translate" \in Ops THEN { Act("translate", o, 0, 0, NoGate, <<>>, 0, "", FALSE, f, <<>>, "") : f \in Formats } ELSE {})
      \cup (IF "simulate" \in Ops THEN { Act("simulate", o, 0, 0, NoGate, <<>>, 0, f, FALSE, "", <<>>, "") : f \in SimForms } ELSE {})
      \cup UNION { IF op \in Ops THEN { A0(op, o) } ELSE {} : op \in {"depth", "iterate", "str"} }
      \cup (IF "eq" \in Ops THEN { Act("eq", o, o2, 0, NoGate, <<>>, 0, "", FALSE, "", <<>>, "") : o2 \in Live(hp) } ELSE {})
         : o \in Live(hp) }
+  \cup (IF "stack" \in Ops THEN { Act("stack0", 0, 0, d, NoGate, <<>>, 0, "", FALSE, "", <<>>, "") : d \in Slots } ELSE {})
   \cup (IF "new" \in Ops THEN { Act("new", 0, 0, d, NoGate, gs, n, "", FALSE, "", <<>>, "") : d \in Slots, gs \in InitLists, n \in {0, 2, 4} } ELSE {})
 
 Init == \E gs \in InitLists, n \in FixedChoices :
@@ -218,7 +245,7 @@ ReadOnlyOK == [][hist'[Len(hist')].op \in ReadOnlyOps => heap' = heap]_vars
 OpCode(op) == CHOOSE c \in 1..40 : <<op, c>> \in
    {<<"new", 1>>, <<"add", 2>>, <<"addbad", 3>>, <<"concat", 4>>, <<"repeat", 5>>, <<"copy", 6>>, <<"inverse", 7>>, <<"trim", 8>>,
     <<"reindex", 9>>, <<"split", 10>>, <<"stack", 11>>, <<"small", 12>>, <<"redundant", 13>>, <<"merge", 14>>, <<"simplify", 15>>,
-    <<"translate", 16>>, <<"simulate", 17>>, <<"depth", 18>>, <<"iterate", 19>>, <<"str", 20>>, <<"eq", 21>>, <<"end", 22>>}
+    <<"translate", 16>>, <<"stack0", 23>>, <<"stack1", 24>>, <<"setparam", 25>>, <<"simulate", 17>>, <<"depth", 18>>, <<"iterate", 19>>, <<"str", 20>>, <<"eq", 21>>, <<"end", 22>>}
 ActHash(a) == OpCode(a.op) + 3 * a.o + 5 * a.dst + 7 * a.o2 + a.g.k + 11 * Len(a.g.t) + 13 * Len(a.g.c) + a.n + 17 * Len(a.new)
               + (IF a.rq THEN 19 ELSE 0) + (IF a.form = "fn" THEN 23 ELSE 0) + Len(a.gs)
               + (IF Len(a.g.t) > 0 THEN 29 * a.g.t[1] ELSE 0) + (IF Len(a.new) > 0 THEN 31 * a.new[1] ELSE 0)
